@@ -141,6 +141,65 @@ impl ConnCfg {
 
 thread_local! {
     static ENV: std::cell::Cell<u64> = std::cell::Cell::new(0);
+    /// fingerprints of the observable outcomes (result, callback log, server output) of the
+    /// connections this worker thread has run; drained after every family
+    static OUTCOMES: RefCell<(std::collections::HashSet<u64>, u64, bool)> = RefCell::new((std::collections::HashSet::new(), 0, false));
+}
+
+const OUTCOME_CAP_PER_THREAD: usize = 1 << 21;
+
+fn fingerprint(res: &ConnResult, log: &[(usize, Cb)], out: &[u8], flushed: usize) -> u64 {
+    use std::hash::{Hash, Hasher};
+    let mut h = std::collections::hash_map::DefaultHasher::new();
+    match res {
+        ConnResult::Ok => 0u8.hash(&mut h),
+        ConnResult::ErrIo(k, _) => {
+            1u8.hash(&mut h);
+            format!("{:?}", k).hash(&mut h);
+        }
+        ConnResult::ErrMarker(m) => {
+            2u8.hash(&mut h);
+            m.hash(&mut h);
+        }
+        ConnResult::Panic(_, m) => {
+            3u8.hash(&mut h);
+            m.hash(&mut h);
+        }
+    }
+    for (_, cb) in log {
+        cb.hash(&mut h);
+    }
+    out.len().hash(&mut h);
+    flushed.hash(&mut h);
+    if out.len() <= 1 << 16 {
+        out.hash(&mut h);
+    } else {
+        // large outputs: both ends and a stride through the middle
+        out[..1 << 15].hash(&mut h);
+        out[out.len() - (1 << 15)..].hash(&mut h);
+        let mut i = 1 << 15;
+        while i < out.len() {
+            out[i].hash(&mut h);
+            i += 4093;
+        }
+    }
+    h.finish()
+}
+
+fn record_outcome(fp: u64) {
+    OUTCOMES.with(|o| {
+        let mut o = o.borrow_mut();
+        o.1 += 1;
+        if o.0.len() < OUTCOME_CAP_PER_THREAD {
+            o.0.insert(fp);
+        } else if !o.0.contains(&fp) {
+            o.2 = true;
+        }
+    });
+}
+
+fn drain_outcomes() -> (std::collections::HashSet<u64>, u64, bool) {
+    OUTCOMES.with(|o| std::mem::take(&mut *o.borrow_mut()))
 }
 
 pub const N_AMBIENT: u64 = 6;
@@ -222,6 +281,7 @@ pub fn run_conn(mut st: SimState, cfg: ConnCfg) -> Outcome {
     };
     shim.sim = None;
     let st = std::mem::replace(&mut *sim.0.borrow_mut(), SimState::new(Arc::new(Vec::new())));
+    record_outcome(fingerprint(&res, &shim.log, &st.out, st.flushed));
     Outcome {
         res,
         log: std::mem::take(&mut shim.log),
@@ -386,6 +446,9 @@ pub fn drive(check: Check, tier: &str, seed: i64) -> i32 {
     let mut total = Stats::default();
     let mut found: Vec<Found> = Vec::new();
     let mut fam_info = Vec::new();
+    let mut outcomes: std::collections::HashSet<u64> = std::collections::HashSet::new();
+    let mut conn_runs = 0u64;
+    let mut outcomes_saturated = false;
     for (fi, fam) in check.families.iter().enumerate() {
         let tf = Instant::now();
         let n = fam.len();
@@ -430,13 +493,28 @@ pub fn drive(check: Check, tier: &str, seed: i64) -> i32 {
                     },
                 )
         };
-        let (st, fv) = match fam.max_threads() {
+        let collect = || -> Vec<(std::collections::HashSet<u64>, u64, bool)> { rayon::broadcast(|_| drain_outcomes()) };
+        let (st, fv, mut drained) = match fam.max_threads() {
             Some(k) => {
                 let pool = rayon::ThreadPoolBuilder::new().num_threads(k).build().unwrap();
-                pool.install(|| work(0..n))
+                pool.install(|| {
+                    let (a, b) = work(0..n);
+                    (a, b, collect())
+                })
             }
-            None => work(0..n),
+            None => {
+                let (a, b) = work(0..n);
+                (a, b, Vec::new())
+            }
         };
+        // families may also run connections on the global pool (nested parallelism) or here
+        drained.extend(collect());
+        drained.push(drain_outcomes());
+        for (set, runs, sat) in drained {
+            conn_runs += runs;
+            outcomes_saturated |= sat;
+            outcomes.extend(set);
+        }
         fam_info.push(json!({"family": fam.name(), "scenarios": n, "executions": st.evals - st.skipped.min(st.evals), "wall_s": tf.elapsed().as_secs_f64()}));
         total = total.merge(st);
         found.extend(fv);
@@ -564,7 +642,12 @@ pub fn drive(check: Check, tier: &str, seed: i64) -> i32 {
             "distinct_nontrivial": total.nontrivial,
             "rule": rule,
             "samples": samples,
-            "states": total.evals,
+            "states": outcomes.len() as u64 + total.evals.saturating_sub(conn_runs),
+            "states_rule": "distinct observable outcomes of complete connections (fingerprint of run_on's result, the shim's callback log with arguments, and every byte the server wrote) plus, for evaluations at a value seam that run no connection, one state per enumerated input (inputs are enumerated without repetition)",
+            "connection_executions": conn_runs,
+            "distinct_connection_outcomes": outcomes.len() as u64,
+            "distinct_outcomes_saturated": outcomes_saturated,
+            "value_seam_evaluations": total.evals.saturating_sub(conn_runs),
             "transitions": total.transitions.max(1),
             "traces_validated_against_impl": total.evals,
             "exhaustive": check.exhaustive,
